@@ -101,7 +101,7 @@ structure PCert where
   permData : Bytes
   fuse : Nat
   uuid : Bytes
-  rec : SrkRecord
+  record : SrkRecord
   srkId : Nat
   keyData : Bytes
   signature : Bytes
